@@ -1,6 +1,9 @@
 SPECIFICATION TSpec
 CONSTANTS
   MaxLen = 0
+  NeedResult = FALSE
+  MinFns = 1
+  MaxFns = 1
   MaxDepth = 0
   Names = {"a", "b", "c", "d"}
   Strict = TRUE
